@@ -48,20 +48,8 @@ func isLiteralAttr(key string) bool {
 }
 
 // escapeAttrValue escapes HTML special characters in attribute values.
-// It avoids double-escaping already-escaped HTML entities.
+// Attribute values in the evaluated DOM are plain text; they are escaped here, exactly once.
 func escapeAttrValue(val string) string {
-	// Quick check: if the string contains &, check if it's an HTML entity reference
-	// If it is, it's likely already escaped and we shouldn't escape it again
-	if strings.Contains(val, "&") {
-		// Check for common HTML entity patterns like &amp; &quot; &#34; etc
-		// If we find them, assume it's already properly escaped
-		if strings.Contains(val, "&amp;") || strings.Contains(val, "&quot;") ||
-			strings.Contains(val, "&apos;") || strings.Contains(val, "&lt;") ||
-			strings.Contains(val, "&gt;") || strings.Contains(val, "&#") {
-			return val
-		}
-	}
-	// Otherwise, escape unescaped special characters
 	return html.EscapeString(val)
 }
 
@@ -118,17 +106,10 @@ func getIndent(indent int) string {
 	return strings.Repeat(" ", indent)
 }
 
-// shouldEscapeTextNode checks if a text node needs HTML escaping.
-// Returns false if the text appears to be already HTML-escaped (from interpolation),
-// true if it contains raw HTML special characters that need escaping.
+// shouldEscapeTextNode reports whether a text node needs HTML escaping.
+// Text in the evaluated DOM is plain text (interpolation does not escape); it is escaped here, exactly once.
 func shouldEscapeTextNode(data string) bool {
-	// If the text contains HTML entity references like &lt; &amp; &#39; etc,
-	// it's likely from interpolation and already escaped
-	if strings.Contains(data, "&") && strings.Contains(data, ";") {
-		return false
-	}
-	// Check if text contains unescaped HTML special characters
-	return strings.ContainsAny(data, "<>&\"'")
+	return helpers.NeedsHTMLEscape(data)
 }
 
 func renderNode(w io.Writer, node *html.Node, indent int) error {
